@@ -23,7 +23,13 @@ CONSTANTS
     Methods,      \* subset of {"none","password","pkq","pks","kbdint"}
     SigKinds,     \* subset of {"ok","bad"}: signature binds session+request or not
     NoAuth,       \* users for which begin_auth() says "no authentication needed"
-    PkMode,       \* "callback": owner.validate_public_key; "config": per-user AuthorizedKeysFile
+    PkMode,       \* "callback": owner.validate_public_key; "config": per-user AuthorizedKeysFile;
+                  \* "begin": begin_auth(u) installs u's keys with conn.set_authorized_keys()
+                  \* (the pattern of the documentation) - users in NoKeys have none to install
+    NoKeys,       \* users for whom no public key at all is authorised
+    ReloadResets, \* TRUE (as coded): reload_config(), run on every change of user name before
+                  \* begin_auth, puts the listener's authorised keys (none) back in force;
+                  \* FALSE: sensitivity variant
     AllowSync,    \* validators may answer synchronously
     AllowAsync,   \* validators may return an awaitable that completes later
     Probes,       \* TRUE: the client may also send a non-auth request (channel open)
@@ -80,7 +86,9 @@ view == <<net, nsent, chunkLeft, parked, reqs, connUser, cfgUser, authObj, authD
 -----------------------------------------------------------------------------
 (* Ground truth held by the application / trust configuration *)
 PwOK(u, c)  == c = u                 \* password c is u's password
-KeyOK(u, c) == c = u                 \* key c is authorised for u (callback or u's file)
+KeyOK(u, c) == c = u /\ u \notin NoKeys   \* key c is authorised for u (callback or u's file)
+\* whose keys are in force once begin_auth(u) has been CALLED (mode "begin")
+Installed(u, before) == IF u \in NoKeys THEN before ELSE u
 NeedsAuth(u) == u \notin NoAuth
 
 TaskIds == DOMAIN task
@@ -336,7 +344,10 @@ RunHead ==
                  [] T.kind = "fin" /\ T.pc = "reload" ->
                     \* reload_config applies the options built for T.vuser
                     \* (the name at the time the job was submitted)
-                    /\ cfgUser' = T.vuser
+                    /\ cfgUser' = IF PkMode = "begin"
+                                  THEN LET reset == IF ReloadResets THEN NULL ELSE cfgUser IN
+                                       IF Stale(t) THEN reset ELSE Installed(FinUser(t), reset)
+                                  ELSE T.vuser
                     /\ IF Stale(t)
                        THEN /\ task' = Finish(t, task) /\ ready' = rq
                             /\ UNCHANGED <<authObj, authDone, granted, checks, out, nextAid>>
@@ -360,7 +371,7 @@ RunHead ==
                                  /\ Suspend(t, rq, "val", T.user)
                                  \* pc stays "start": resumed by ValDone with pc "checked"
                          [] m.method \in {"pkq", "pks"} ->
-                              IF PkMode = "config"
+                              IF PkMode \in {"config", "begin"}
                               THEN \* authorized_client_keys of the configuration in effect;
                                    \* no suspension, the user name is not consulted
                                    AfterCheck(t, rq, cfgUser # NULL /\ KeyOK(cfgUser, m.cred),
